@@ -40,17 +40,26 @@ Den(psi) == Norm2(psi)
 \* the statement itself: <psi| Embed(G) |psi>   (quadratic in the total dimension)
 ExpNumStmt(psi, dims, sites, G) == Inner(psi, EmbedVec(G, dims, sites, psi))
 
+\* (TLC evaluates LET definitions and function constructors lazily and, in state-level formulas, again
+\* at every use: offset tables are therefore built as explicit tuples and bound through a singleton set)
+RECURSIVE MkSeq(_, _, _)
+MkSeq(F(_), lo, hi) == IF lo > hi THEN <<>>
+                       ELSE IF lo = hi THEN <<F(lo)>>
+                       ELSE LET mid == (lo + hi) \div 2 IN MkSeq(F, lo, mid) \o MkSeq(F, mid + 1, hi)
+Let1(v, F(_)) == CHOOSE r \in {F(y) : y \in {v}} : TRUE
+OffTable(dims, pos) == MkSeq(LAMBDA c : Off(dims, pos, c - 1), 1, SiteSize(dims, pos))
+
 \* reduced density matrix in the requested site order, rows = ket index
 RDM(psi, dims, sites) ==
-  LET rest == RestOf(dims, sites)
-      ns   == SiteSize(dims, sites)
-      nr   == SiteSize(dims, rest)
-      offS == [a \in 1..ns |-> Off(dims, sites, a - 1)]
-      offR == [r \in 1..nr |-> Off(dims, rest, r - 1)]
-  IN  Mat(ns, [n \in 1..(ns * ns) |->
+  LET ns == SiteSize(dims, sites)
+      nr == SiteSize(dims, RestOf(dims, sites))
+  IN  Let1(OffTable(dims, sites), LAMBDA offS :
+      Let1(OffTable(dims, RestOf(dims, sites)), LAMBDA offR :
+        Mat(ns, MkSeq(LAMBDA n :
                  LET a == ((n - 1) \div ns) + 1
                      b == ((n - 1) % ns) + 1
-                 IN  SumG(LAMBDA r : GMul(psi[offS[a] + offR[r] + 1], GConj(psi[offS[b] + offR[r] + 1])), 1, nr)])
+                 IN  SumG(LAMBDA r : GMul(psi[offS[a] + offR[r] + 1], GConj(psi[offS[b] + offR[r] + 1])), 1, nr),
+                 1, ns * ns))))
 
 TraceM(M) == SumG(LAMBDA i : MatEntry(M, i, i), 1, M.rows)
 \* Tr(A B)
